@@ -17,6 +17,39 @@ CLAIMED = {
                 tech="TLA+ spec + TLC exhaustive; per-transition replay of the TLC state graph on the implementation"),
 }
 
+HIST_NOTE = ("TLC and the Json/IOUtils modules; the harness's own re-derivations (keccak, CREATE addresses, merkle, bloom, RLP via "
+             "alloy); the hand-assembled Cell contract; schedules are a sample of the behaviours of Brc20Ref with the real "
+             "constants (simulation), exhaustive only in the small-scope model configs; in-process RPC method table")
+HIST_TECH = "TLA+ reference machine (Brc20Ref) + TLC-generated schedules executed on the real engine + TLC trace validation of every call"
+CLAIMED.update({
+    "C01": dict(cat="model_checking", sec="5/C01", note=HIST_NOTE, tech=HIST_TECH,
+                text="Brc20Ref.tla defines Reorg(N) as truncation of the chain (state = snapshot at N) with the acceptance rule "
+                     "N <= height and maxEver <= N+10; TLC-generated histories with reorg targets inside and outside the window, "
+                     "commits at arbitrary points and regrowth are executed on the real engine and every call's full projection "
+                     "(orphaned identifiers included) is validated against the reference state by TLC."),
+    "C03": dict(cat="model_checking", sec="5/C03", note=HIST_NOTE, tech=HIST_TECH,
+                text="Commit changes no observable of Brc20Ref; Clear/Restart fall back to the state of the last commit. Histories "
+                     "with commit/clear/restart at arbitrary block boundaries (clear also mid-block) are executed and the projection "
+                     "after every call must equal the commit-independent reference state."),
+    "C05": dict(cat="model_checking", sec="5/C05", note=HIST_NOTE, tech=HIST_TECH,
+                text="Every Brc20Ref action has reject disjuncts that leave all variables unchanged and accept disjuncts guarded by "
+                     "the block protocol; out-of-protocol calls are injected at arbitrary positions, an error result may only match "
+                     "a reject disjunct (projection unchanged) and an ok result must satisfy the protocol guard."),
+    "C06": dict(cat="model_checking", sec="5/C06", note=HIST_NOTE, tech=HIST_TECH,
+                text="The chain-coherence laws are evaluated by TLC on the projection of the real instance after every call of "
+                     "every run: blocks/parents/hash index, tx-receipt-(block,index) cross references, inscription and contract "
+                     "indexes, log indexes, cumulative gas, bloom, merkle root, raw encodings, returned receipt = served receipt."),
+    "C07": dict(cat="model_checking", sec="5/C07", note=HIST_NOTE, tech=HIST_TECH,
+                text="The ledger section of Brc20Ref (strict deposit/withdraw, status-driven user transfers, adversarial mint/burn "
+                     "must fail, supply = sum of balances) is the oracle for brc20_balance and totalSupply after every block of "
+                     "TLC-generated ledger histories, tickers in mixed case, amounts up to 2^256-1, across reorgs."),
+    "C08": dict(cat="model_checking", sec="5/C08", note=HIST_NOTE, tech=HIST_TECH,
+                text="The pending-pool section of Brc20Ref (park inside the nonce window, drain of consecutive live nonces at "
+                     "consecutive indexes in the same call, expiry, one receipt per appended transaction, pool = waiting set) is "
+                     "validated on real signed legacy transactions in TLC-generated arrival orders incl. gaps, replays, foreign "
+                     "chain ids, undecodable bytes and window edges."),
+})
+
 NOT_YET = {}
 
 NA = {
